@@ -19,6 +19,15 @@ input conversion: the model is asked with the RAW input (the variants read back 
   exception must be the rejection reason `mkInst` gives.
 correspondence (ctx.disagree): model cost == impl cost; model super-reads for the implementation's witness ==
   implementation's super-reads (tie flags included); table-based column cost == direct column cost.
+compute_table as coded (`c01.ckpt`, Model/C01Ckpt.lean: stored backtrace tables, every floor(sqrt(n))-th column kept,
+  backtrace by recomputation of the segment between two check-points, first strict minimum in Gray-code order):
+  the returned partition, transmission vector and super reads are compared EXACTLY (ties included) on every solved
+  instance; the long-thin stream (16-40 columns, k = 4..6) and the medium stream (up to 12 columns, k = 1..3) give
+  several check-points per instance.
+32-bit arithmetic (`c01.cost32`, Model/C01U32.lean): stream `u32` scales weights / recombination costs so that the
+  cost sums lie on both sides of 2^32; the reported cost (or the conflict exception) must be what the wrap-around
+  model computes, and below the proved bound `ubAll < UINT_MAX` (theorem `no_overflow`) it must be the true optimum.
+  F30: `get_optimal_cost()` came back negative for optima >= 2^31 (cpp.pxd declared `int`), fixes/F30.patch.
 """
 import itertools, json, math
 
@@ -26,9 +35,11 @@ RULE = ("random (Ped)MEC instances: 1-2 unrelated individuals, trios, quartets; 
         "from a hidden truth plus noise, weights 1..40 with many equal weights (ties), trusted genotypes (consistent "
         "or random/conflicting) or phred likelihood triples, recombination costs 0..30, optional read-less columns "
         "via the positions argument, optional variants at positions that are no columns (skipped by the column iterator), "
-        "optional positions=None (columns = covered positions); rejected ReadSets (unsorted, unsorted variants, empty read); long-thin instances for the sqrt(n) checkpointing. Non-trivial = at least two "
+        "optional positions=None (columns = covered positions); rejected ReadSets (unsorted, unsorted variants, empty read); long-thin instances for the sqrt(n) checkpointing; stream u32: weights / recombination costs scaled so that cost sums lie around 2^32. Non-trivial = at least two "
         "reads sharing a column and at least two columns; distinct = distinct serialised instance")
-ASSUMPTIONS = ["32-bit overflow of finite costs is not modelled (generated sums stay far below 2^31)",
+ASSUMPTIONS = ["optimality of the reported cost is claimed for instances whose cost bound ubAll (all read weights + largest "
+               "genotype costs + two recombinations per trio and column) is below UINT_MAX = 2^32-1 (theorem no_overflow); "
+               "beyond it the solver's unsigned 32-bit sums wrap (modelled by dpCost32, compared, not a failure)",
                "reads are given sorted (ReadSet.sort()) as the solver requires"]
 MANIFEST = dict(
     text="Lean 4 theorems about a model of the column DP (PedigreeDPTable): the DP value equals the minimum of the "
@@ -38,7 +49,8 @@ MANIFEST = dict(
          "compiled model, and the property predicate (true minimum by enumeration, witness cost, tie flags, "
          "infeasibility) is evaluated on every implementation output",
     design_ref="DESIGN.md §5 C01",
-    note="trusted: Lean kernel; hand-written model (sqrt-n checkpointing and 32-bit overflow not modelled); "
+    note="trusted: Lean kernel; hand-written model (now including compute_table's stored backtrace tables, sqrt-n "
+         "check-pointing with recomputation, Gray-order tie-breaking, and the 32-bit wrap-around arithmetic); "
          "correspondence is differential testing (quick ≈1 500 instances, thorough ≈30 000 + exhaustive tiny spaces)",
     technique="Lean 4 proof (DP = brute-force optimum by induction over columns) + differential correspondence with brute-force oracle",
 )
@@ -552,17 +564,23 @@ def run(ctx):
                     for i in range(inst["nind"])] for c in range(inst["ncols"])]
             if msr != isr:
                 ctx.disagree("c01.eval.superreads", case, isr, msr)
-            # compute_table as coded (check-pointed backtrace, Gray-code tie-breaking): the very witness is compared
+            # compute_table as coded (stored backtrace tables, sqrt(n) check-pointing, backtrace by recomputation,
+            # first minimum in Gray-code order): the very index path's partition / transmission vector / super reads
             ctx.dist("checkpoint_spacing_k", ck.get("k"))
             if ck.get("path") is None:
                 ctx.disagree("c01.ckpt(path)", case, {"partition": impl["partition"], "tau": impl["tau"]}, ck)
             else:
-                if ck["tau"] != impl["tau"]:
-                    ctx.disagree("c01.ckpt(transmission)", case, impl["tau"], ck["tau"])
-                if [bool(x) for x in ck["beta"]] != [bool(x) for x in impl["partition"]]:
-                    ctx.disagree("c01.ckpt(partition)", case, impl["partition"], ck["beta"])
-                if ck["superreads"] != isr:
-                    ctx.disagree("c01.ckpt(superreads)", case, isr, ck["superreads"])
+                same = (ck["tau"] == impl["tau"] and [bool(x) for x in ck["beta"]] == [bool(x) for x in impl["partition"]]
+                        and ck["superreads"] == isr)
+                ctx.dist("ckpt_witness", "identical to the model of compute_table" if same else "different")
+                if not same:
+                    # an optimal witness that is not the one the coded tie-breaking yields still satisfies the
+                    # property; it means the model no longer mirrors compute_table (named so in the report)
+                    optimal = ev["cost"] == impl["cost"] == mcost and msr == isr
+                    ctx.disagree("c01.ckpt(tie-breaking only: the returned witness is optimal but not the first minimum "
+                                 "in visiting order)" if optimal else "c01.ckpt(witness)", case,
+                                 {"partition": impl["partition"], "tau": impl["tau"], "superreads": isr},
+                                 {"partition": ck["beta"], "tau": ck["tau"], "superreads": ck["superreads"], "k": ck["k"]})
             ctx.validated()
         pending.clear(); reqs.clear()
 
@@ -580,7 +598,7 @@ def run(ctx):
 
     n_small = (1200 if ctx.quick else 8000) * ctx.scale
     n_mid = (1200 if ctx.quick else 20000) * ctx.scale
-    n_long = (40 if ctx.quick else 600) * ctx.scale
+    n_long = (60 if ctx.quick else 600) * ctx.scale
     for _ in range(n_small):
         submit(gen_instance(rng, small=True), brute=True)
     for _ in range(n_mid):
